@@ -156,7 +156,8 @@ class State:
             if q[0] and q[0] not in symno: symno[q[0]] = len(symno) + 1000
         z = tuple(sorted(((symno.get(x, 0) if x else 0, symno.get(y, 0) if y else 0, c) for (x, y), c in self.zone.items() if (x == 0 or x in symno) and (y == 0 or y in symno)), key=str))
         rq = tuple(sorted(((symno.get(q[0], 0), q[1]) for q in self.req), key=str))
-        return (r, tuple(out), z, symno.get(self.av), rq)
+        xs = tuple((k2, tuple(sorted(self.x[k2].items(), key=str)) if isinstance(self.x.get(k2), dict) else self.x.get(k2)) for k2 in self.x.get('__sig', ()))
+        return (r, tuple(out), z, symno.get(self.av), rq, xs)
 
 _frame_serial = [0]
 
